@@ -823,7 +823,8 @@ func checkForUnusedBranches(value interface{}, paths map[string]struct{}) error 
 	var parts []string
 	for copyValue != nil {
 		mapVal, ok := copyValue.(map[string]interface{})
-		if !ok {
+		if !ok || len(mapVal) == 0 {
+			// an empty map is a leaf too
 			break
 		}
 
